@@ -508,6 +508,11 @@ func sameValue(value1 *ast.Value, value2 *ast.Value) bool {
 }
 
 func doTypesConflict(walker *Walker, type1 *ast.Type, type2 *ast.Type) bool {
+	// nullability must agree at every level of list nesting
+	if type1.NonNull != type2.NonNull {
+		return true
+	}
+
 	if type1.Elem != nil {
 		if type2.Elem != nil {
 			return doTypesConflict(walker, type1.Elem, type2.Elem)
@@ -517,16 +522,14 @@ func doTypesConflict(walker *Walker, type1 *ast.Type, type2 *ast.Type) bool {
 	if type2.Elem != nil {
 		return true
 	}
-	if type1.NonNull && !type2.NonNull {
-		return true
-	}
-	if !type1.NonNull && type2.NonNull {
-		return true
-	}
 
 	t1 := walker.Schema.Types[type1.NamedType]
 	t2 := walker.Schema.Types[type2.NamedType]
-	if (t1.Kind == ast.Scalar || t1.Kind == ast.Enum) && (t2.Kind == ast.Scalar || t2.Kind == ast.Enum) {
+	if t1 == nil || t2 == nil {
+		return false
+	}
+	// a leaf type only merges with itself
+	if t1.IsLeafType() || t2.IsLeafType() {
 		return t1.Name != t2.Name
 	}
 
